@@ -349,6 +349,43 @@ func famTwoDeletes(cloud bool, bounds map[string]int) []*Scenario {
 	return out
 }
 
+// famLateRunningEvent: the "running" notification of incarnation A (which makes the plugin sync the pod's IP into its tables) is
+// handled while A is being deleted, its delete event handled and a same-named incarnation B created and bound. A holds the
+// higher of two addresses, so that B is given the other one.
+func famLateRunningEvent(cloud bool, bounds map[string]int) []*Scenario {
+	var out []*Scenario
+	for _, c := range []wkClass{{"sts", ""}, {"sts", "immutable"}, {"bare", ""}} {
+		c := c
+		out = append(out, &Scenario{Name: "late-running-event/" + c.String(), Class: c.String(), Cfg: cfgOnePool(2, cloud), Bounds: bounds, Weight: 3,
+			Build: func(w *world.World) []Thread {
+				c.setWorkload(w, 8)
+				// a placeholder takes the first address and gives it back once A has the second one
+				ph := wkClass{"bare", ""}.pod(5)
+				w.CreatePod(ph)
+				mustSchedule(w, ph.Key())
+				p := c.pod(0)
+				w.CreatePod(p)
+				mustSchedule(w, p.Key())
+				w.DeletePod(ph.Key())
+				deliverAll(w, takePending(w))()
+				w.SetPhase(p.Key(), corev1.PodRunning)
+				running := takePending(w)
+				return []Thread{
+					{"deliver-running", deliverAll(w, running)},
+					{"delete+recreate", func() {
+						w.DeletePod(p.Key())
+						deliverAll(w, takePending(w))()
+						w.CreatePod(p)
+						scheduleRetry(w, p.Key(), 2)()
+					}},
+				}
+			},
+			Final: quiesce,
+		})
+	}
+	return out
+}
+
 // famReloadReplacement: the only pod of a reserving deployment has been deleted (its IP is in reserve) and its replacement is
 // scheduled while a configuration with one more address is loaded: the replacement must take the reserved IP.
 func famReloadReplacement(bounds map[string]int) []*Scenario {
